@@ -529,7 +529,15 @@ pub fn gen_intent(rng: &mut Rng, c: &CmdSpec, io: &IntentOpts) -> LevelIntent {
         if poss.is_empty() && !matches!(li.items.last(), Some(Item::Opt { .. })) {
             let name = format!("ext{}", rng.below(100));
             let n = rng.below(4);
-            let args: Vec<Vec<u8>> = (0..n).map(|_| rng.pick(crate::gen::HOSTILE_TOKENS).to_vec()).collect();
+            let args: Vec<Vec<u8>> = (0..n)
+                .map(|_| loop {
+                    let t = rng.pick(crate::gen::HOSTILE_TOKENS).to_vec();
+                    // a `String` external parser rejects non-UTF-8 by contract
+                    if !c.external_string || std::str::from_utf8(&t).is_ok() {
+                        break t;
+                    }
+                })
+                .collect();
             li.external = Some((name, args));
         }
     }
@@ -548,6 +556,8 @@ pub struct Style {
     pub prefix: usize,
     pub prefer_short: usize,
     pub escape: usize,
+    /// merge a short flag subcommand into the surrounding clusters (`-vS`, `-Syu`)
+    pub merge_flag_sub: usize,
 }
 
 impl Style {
@@ -560,10 +570,11 @@ impl Style {
             prefix: rng.below(101),
             prefer_short: rng.below(101),
             escape: rng.below(101),
+            merge_flag_sub: 0,
         }
     }
     pub fn canonical() -> Style {
-        Style { eq: 0, attach_short: 0, cluster: 0, alias: 0, prefix: 0, prefer_short: 0, escape: 0 }
+        Style { eq: 0, attach_short: 0, cluster: 0, alias: 0, prefix: 0, prefer_short: 0, escape: 0, merge_flag_sub: 0 }
     }
 }
 
@@ -642,7 +653,7 @@ pub fn render(rng: &mut Rng, root: &CmdSpec, intent: &LevelIntent, st: &Style) -
     let mut r = Rendered::default();
     r.argv.push("prog".into());
     let mut globals: Vec<&ArgSpec> = vec![];
-    render_level(rng, root, intent, st, &mut r, &mut globals, 0);
+    render_level(rng, root, intent, st, &mut r, &mut globals, 0, None);
     r
 }
 
@@ -651,7 +662,7 @@ fn push_tok(r: &mut Rendered, s: String) -> usize {
     r.argv.len() - 1
 }
 
-fn render_level<'a>(rng: &mut Rng, c: &'a CmdSpec, li: &LevelIntent, st: &Style, r: &mut Rendered, globals: &mut Vec<&'a ArgSpec>, lvl: usize) {
+fn render_level<'a>(rng: &mut Rng, c: &'a CmdSpec, li: &LevelIntent, st: &Style, r: &mut Rendered, globals: &mut Vec<&'a ArgSpec>, lvl: usize, carry: Option<usize>) {
     while r.places.len() <= lvl {
         r.places.push(BTreeMap::new());
     }
@@ -681,6 +692,27 @@ fn render_level<'a>(rng: &mut Rng, c: &'a CmdSpec, li: &LevelIntent, st: &Style,
     let mut escaped = false;
     let mut i = 0;
     let items = &li.items;
+    // `-Syu`: the child's leading short flags continue the token that named the flag subcommand
+    if let Some(ti) = carry {
+        while i < items.len() {
+            match &items[i] {
+                Item::Flag { arg } if c.args[*arg].short.is_some() => {
+                    let mut tok = r.argv[ti].to_string_lossy().into_owned();
+                    r.places[lvl].entry(*arg).or_default().push(Place { tok: ti, off: tok.len() });
+                    tok.push(c.args[*arg].short.unwrap());
+                    r.argv[ti] = tok.into();
+                    r.features.push("cluster.child-flags-after-flag-sub");
+                    i += 1;
+                    if rng.below(100) >= 70 {
+                        break;
+                    }
+                }
+                _ => break,
+            }
+        }
+    }
+    // index of the last token if it is a pure short-flag cluster of this level (for `-vS`)
+    let mut last_cluster_tok: Option<usize> = None;
     // `--` may be inserted before a pure positional suffix (documented equivalent), and is required
     // before a `last` positional
     let suffix_start = {
@@ -693,6 +725,7 @@ fn render_level<'a>(rng: &mut Rng, c: &'a CmdSpec, li: &LevelIntent, st: &Style,
     while i < items.len() {
         match &items[i] {
             Item::Term { tok } => {
+                last_cluster_tok = None;
                 if !tok.is_empty() {
                     push_tok(r, tok.clone());
                     r.features.push("terminator");
@@ -700,6 +733,7 @@ fn render_level<'a>(rng: &mut Rng, c: &'a CmdSpec, li: &LevelIntent, st: &Style,
                 i += 1;
             }
             Item::Pos { arg, toks } => {
+                last_cluster_tok = None;
                 let a = &c.args[*arg];
                 if !escaped {
                     let must = a.last;
@@ -771,7 +805,10 @@ fn render_level<'a>(rng: &mut Rng, c: &'a CmdSpec, li: &LevelIntent, st: &Style,
                         }
                     }
                     if !tok.is_empty() {
-                        push_tok(r, tok);
+                        let t = push_tok(r, tok);
+                        last_cluster_tok = Some(t);
+                    } else {
+                        last_cluster_tok = None;
                     }
                     r.features.push(if clustered > 0 { "cluster.flags" } else { "flag.short" });
                 } else {
@@ -779,10 +816,12 @@ fn render_level<'a>(rng: &mut Rng, c: &'a CmdSpec, li: &LevelIntent, st: &Style,
                     let ti = push_tok(r, format!("--{}", name));
                     r.places[lvl].entry(*arg).or_default().push(Place { tok: ti, off: 0 });
                     r.features.push("flag.long");
+                    last_cluster_tok = None;
                     i += 1;
                 }
             }
             Item::Opt { arg, toks } => {
+                last_cluster_tok = None;
                 let a = &c.args[*arg];
                 let forced_attach = matches!(items.get(i + 1), Some(Item::Term { tok }) if tok.is_empty());
                 let term_follows = matches!(items.get(i + 1), Some(Item::Term { tok }) if !tok.is_empty());
@@ -851,8 +890,29 @@ fn render_level<'a>(rng: &mut Rng, c: &'a CmdSpec, li: &LevelIntent, st: &Style,
             }
         }
         let pick = if rng.below(100) < st.alias.max(st.prefix) { rng.below(choices.len()) } else { 0 };
-        let (tok, feat) = choices[pick].clone();
-        push_tok(r, tok);
+        let (mut tok, mut feat) = choices[pick].clone();
+        let mut carry_tok = None;
+        if st.merge_flag_sub > 0 && s.short_flag.is_some() && rng.below(100) < st.merge_flag_sub {
+            tok = format!("-{}", s.short_flag.unwrap());
+            feat = "sub.short-flag";
+        }
+        if feat == "sub.short-flag" && st.merge_flag_sub > 0 {
+            match last_cluster_tok {
+                Some(ti) if rng.coin() => {
+                    // `-vS`: parent flags and the flag subcommand in one cluster
+                    let mut t = r.argv[ti].to_string_lossy().into_owned();
+                    t.push(s.short_flag.unwrap());
+                    r.argv[ti] = t.into();
+                    r.features.push("cluster.parent-flags-before-flag-sub");
+                    carry_tok = Some(ti);
+                }
+                _ => {
+                    carry_tok = Some(push_tok(r, tok.clone()));
+                }
+            }
+        } else {
+            push_tok(r, tok);
+        }
         r.features.push(feat);
         let before = globals.len();
         for a in &c.args {
@@ -860,7 +920,7 @@ fn render_level<'a>(rng: &mut Rng, c: &'a CmdSpec, li: &LevelIntent, st: &Style,
                 globals.push(a);
             }
         }
-        render_level(rng, s, child, st, r, globals, lvl + 1);
+        render_level(rng, s, child, st, r, globals, lvl + 1, carry_tok);
         globals.truncate(before);
     } else if let Some((name, args)) = &li.external {
         push_tok(r, name.clone());
